@@ -416,4 +416,105 @@ func c02Push(w *W) {
 func init() {
 	register(&Scenario{Name: "pair", Prop: "C02", Horizon: time.Hour, Run: c02Pair})
 	register(&Scenario{Name: "pushpull", Prop: "C02", Horizon: time.Hour, Run: c02Push})
+	register(&Scenario{Name: "pair-handover", Prop: "C02", Horizon: time.Hour, Run: c02Handover})
+}
+
+// c02Handover: the first PAIR peer is lost in the middle of the traffic (its
+// pipe sender blocked in a write under back-pressure, later messages queued
+// behind it) and another peer takes over. "On connection failure messages may
+// be lost but never duplicated or reordered within a connection": what the
+// second peer receives from one sender task ascends.
+func c02Handover(w *W) {
+	kind := []string{"pair", "xpair", "pair1", "xpair1"}[w.Choose(simrt.SShape, 4)]
+	tran := []string{"sim", "simipc", "inproc"}[w.Choose(simrt.SShape, 3)]
+	wq := []int{1, 2, 8, 128}[w.Choose(simrt.SShape, 4)]
+	nmsg := 6 + w.Choose(simrt.SShape, 20)
+	w.SetShape("kind", kind)
+	w.SetShape("tran", tran)
+	w.SetShape("wq", wq)
+	w.UseNet(NetCfg{Segment: w.Choose(simrt.SShape, 2) == 0, BufCap: []int{64, 300, 0}[w.Choose(simrt.SShape, 3)]})
+	qkey := fmt.Sprintf("%s:wq=%d:handover", kind, wq)
+	a, b, c := w.Sock(kind), w.Sock(kind), w.Sock(kind)
+	defer a.Close()
+	defer b.Close()
+	defer c.Close()
+	mustSet(w, a, mangos.OptionWriteQLen, wq)
+	for _, s := range []mangos.Socket{b, c} {
+		mustSet(w, s, mangos.OptionReconnectTime, 5*time.Millisecond)
+		mustSet(w, s, mangos.OptionMaxReconnectTime, 5*time.Millisecond)
+	}
+	addr := w.Addr(tran)
+	if err := a.Listen(addr); err != nil {
+		w.Failf("HARNESS/listen", "%v", err)
+		return
+	}
+	if err := b.Dial(addr); err != nil {
+		w.Failf("HARNESS/dial", "%v", err)
+		return
+	}
+	w.Sleep(2 * time.Millisecond)
+	w.Settle()
+	// B reads slowly (so A's queue and socket buffer towards it fill up)
+	rb := &c2Recv{name: "B", s: b}
+	mustSet(w, b, mangos.OptionRecvDeadline, 2*time.Millisecond)
+	stopB := false
+	w.Do("slow receiver B", func() (interface{}, error) {
+		for !stopB {
+			m, err := b.RecvMsg()
+			if err == mangos.ErrClosed {
+				return nil, nil
+			}
+			if err == nil {
+				rb.got = append(rb.got, string(m.Body))
+				rb.pipe = append(rb.pipe, 1)
+				m.Free()
+			}
+			simrt.Sleep(time.Millisecond)
+		}
+		return nil, nil
+	})
+	rc := c2StartReceiver(w, "C", c, 300*time.Millisecond)
+	accepted := map[string]bool{}
+	calls := c2Senders(w, a, kind, "A", 1, nmsg, accepted)
+	// C starts knocking; B goes away at some point of the traffic
+	mustSet(w, c, mangos.OptionDialAsynch, true)
+	if err := c.Dial(addr); err != nil {
+		w.Failf("HARNESS/dial", "%v", err)
+		return
+	}
+	w.Sleep(time.Duration(w.Choose(simrt.SProg, 4000)) * time.Microsecond)
+	for y := w.Choose(simrt.SNet, 40); y > 0; y-- {
+		simrt.Yield()
+	}
+	w.Op("the first peer B is lost mid-traffic")
+	w.Fault("close")
+	stopB = true
+	if tran != "inproc" && w.Choose(simrt.SProg, 2) == 0 {
+		resetSomeConn(w, "")
+	}
+	b.Close()
+	for _, call := range calls {
+		if !call.Wait(20 * time.Second) {
+			w.WedgeCheck("C12")
+			w.Failf("C02/send-never-completes:"+qkey, "%s: the first peer left, a second peer redials every 5ms and is receiving, yet %s has not finished after 20s (it sent %v messages)", qkey, call.Label, call.Val)
+			return
+		}
+	}
+	w.Sleep(time.Second)
+	w.Settle()
+	if !c2CheckOrder(w, rb, qkey) || !c2CheckOrder(w, rc, qkey) {
+		return
+	}
+	seen := map[string]bool{}
+	for _, x := range append(append([]string(nil), rb.got...), rc.got...) {
+		if seen[x] {
+			w.Failf("C02/duplicate:"+qkey, "%q was delivered twice (to the first and to the second peer)", x)
+			return
+		}
+		seen[x] = true
+	}
+	if len(rc.got) > 0 {
+		w.Probe("pair-handover-mid-traffic")
+	}
+	w.Delivery += len(rb.got) + len(rc.got)
 }
